@@ -1,3 +1,4 @@
+import FluentProofs.ConstTieResolver
 import FluentProofs.ResolverTotal
 import FluentProofs.ResolverBound
 import FluentProofs.ResolverFuel
